@@ -4252,8 +4252,10 @@ def qr(a, mode='reduced', inner_labels=[None, None], cutoff=None, pos_diag_R=Fal
         nonzero = q._qdata[:, 1] != -1
         q._qdata = q._qdata[nonzero]
         r._qdata = r._qdata[nonzero]
-        q._data = [d for d, keep in zip(q_data, nonzero) if keep]
-        r._data = [d for d, keep in zip(r_data, nonzero) if keep]
+        # (blocks skipped above have no entry in q_data: decide per block, not per row of a._qdata)
+        keep = [q_block.shape[1] > 0 for q_block in q_data]
+        q._data = [d for d, k in zip(q_data, keep) if k]
+        r._data = [d for d, k in zip(r_data, keep) if k]
     else:  # mode == 'complete'
         q._qdata[:, 1] = q._qdata[:, 0]
         if len(q_data) < a_leg0.block_number:
